@@ -93,7 +93,7 @@ def _prop_tuples(cls) -> dict[str, list[str]]:
         for d in defs:
             if not any(x.endswith("property") for x in d.decorator_names()):
                 continue
-            g = d.raw_node
+            g = d.as_raw().node
             rets = [x for x in walk_local(g) if isinstance(x, ast.Return) and x.value is not None]
             if len(rets) != 1 or not isinstance(rets[0].value, ast.Tuple):
                 continue
